@@ -64,6 +64,38 @@ Theorem C16_check_entry_sound : forall (S : dfield),
 Proof. exact check_entry_sound. Qed.
 Print Assumptions C16_check_entry_sound.
 
+(* classes that supply their own Jacobian / inverse Jacobian (class attributes _jac, _inv_jac; four arms of
+   Mapping.__new__, Model/CatalogueM.v [supplied]).  [check_supplied s e = true] is evaluated per generated class;
+   [exposes S s e]: the stored matrix of the arm IS the supplied one, the other matrix of the pair is its inverse
+   whenever the arm computes it, metric = J^T J and metric_det = det (J^T J) of the STORED Jacobian. *)
+Theorem C16_supplied_sound : forall (S : dfield),
+  (forall a, Edom S Fsin a -> fadd S (fmul S (E S Fsin a) (E S Fsin a)) (fmul S (E S Fcos a) (E S Fcos a)) = f1 S) ->
+  (forall a, Edom S Fsqrt a -> fmul S (E S Fsqrt a) (E S Fsqrt a) = a) ->
+  (forall (k : positive) a, Edom S Fsqrt a -> Edom S Fsqrt (fmul S (num S (Zpos (k * k))) a) ->
+      E S Fsqrt (fmul S (num S (Zpos (k * k))) a) = fmul S (num S (Zpos k)) (E S Fsqrt a)) ->
+  forall s e, check_supplied s e = true -> sup_conditions S s e -> exposes S s e.
+Proof. exact check_supplied_sound. Qed.
+Print Assumptions C16_supplied_sound.
+
+(* a class that supplies the true Jacobian of its expressions gets a coherent object *)
+Theorem C16_supplied_consistent_coherent : forall (S : dfield) G e,
+  exposes S (SupJac G) e -> map (map (ev S)) G = D_matrix S (e_ldim e) (e_expr e) -> coherent S e.
+Proof. exact supplied_consistent_coherent. Qed.
+Print Assumptions C16_supplied_consistent_coherent.
+
+(* a class that supplies ANOTHER matrix is not repaired: the object exposes exactly that matrix (its Jacobian is then
+   not the derivative of the expressions: the user's inconsistency), with its true inverse, its Gram matrix and the
+   determinant of that (no second inconsistency) *)
+Theorem C16_supplied_inconsistent_kept : forall (S : dfield) G e,
+  exposes S (SupJac G) e -> map (map (ev S)) G <> D_matrix S (e_ldim e) (e_expr e) ->
+  map (map (ev S)) (e_jac e) = map (map (ev S)) G
+  /\ map (map (ev S)) (e_jac e) <> D_matrix S (e_ldim e) (e_expr e)
+  /\ inverse_ok S e
+  /\ map (map (ev S)) (e_metric e) = f_gram S (e_ldim e) (map (map (ev S)) (e_jac e))
+  /\ ev S (e_mdet e) = f_det S (e_ldim e) (f_gram S (e_ldim e) (map (map (ev S)) (e_jac e))).
+Proof. exact supplied_inconsistent_kept. Qed.
+Print Assumptions C16_supplied_inconsistent_kept.
+
 (* ------------------------------------------------------------------ shapes *)
 (* numpy's rule, axis by axis from the last axis (absent axes read as 1) *)
 Theorem C16_broadcast_axiswise : forall a b c,
@@ -150,6 +182,22 @@ Example C16_check_rejects :
   /\ check_entry (mkEntry (e_name e) 2 2 (e_expr e) (e_jac e) (e_jinv e) (e_metric e) (t_det 2 (e_jac e))) = false
   /\ check_entry (mkEntry (e_name e) 2 2 (map (TMul (TZ 2)) (e_expr e)) (e_jac e) (e_jinv e) (e_metric e) (e_mdet e)) = false.
 Proof. vm_compute. auto. Qed.
+
+(* the supplied-matrix check is not vacuous: for x = a11*x1 + c1 with the supplied Jacobian [[2*a11]] the object that
+   stores [[2*a11]], its inverse, 4*a11^2 and 4*a11^2 passes, is recognised as inconsistent with the expressions, and
+   an object that "repaired" the metric to a11^2 (or stored another matrix than the supplied one) is rejected *)
+Example C16_supplied_examples :
+  let a := TAt (AConst "a11") in
+  let two_a := TMul (TZ 2) a in
+  let four_aa := TMul (TZ 4) (TMul a a) in
+  let e := mkEntry "U" 1 1 (e_expr sample_affine) [[two_a]] (Some [[TInv two_a]]) [[four_aa]] four_aa in
+  check_supplied (SupJac [[two_a]]) e = true
+  /\ check_supplied_parts (SupJac [[two_a]]) e = [true; true; true; true; true; false]
+  /\ check_supplied (SupJac [[two_a]]) (mkEntry "U" 1 1 (e_expr e) (e_jac e) (e_jinv e) [[TMul a a]] (e_mdet e)) = false
+  /\ check_supplied (SupJac [[a]]) e = false
+  /\ check_supplied (SupBoth [[two_a]] [[TInv a]]) (mkEntry "U" 1 1 (e_expr e) (e_jac e) (Some [[TInv a]]) (e_metric e) (e_mdet e)) = true
+  /\ check_supplied SupNone sample_polar = true.
+Proof. vm_compute. repeat split. Qed.
 
 Example C16_broadcast_examples :
   broadcast [[2; 1]; [3]; []] = Some [2; 3] /\ broadcast [[2]; [3]] = None /\ broadcast [[0]; [1]] = Some [0]
